@@ -266,6 +266,35 @@ def fail_provenance(fl, ix, defs, k_id):
             rid = is_sat_test(cnd, defs)
             if rid is not None and pol:
                 res_id, guard_form = rid, True
+    payload = None
+    if res_id is None:
+        # `let failed = helper(..)?; if let Some(wit) = failed { Fail(wit) }`: the (inlined) helper hands back Some only under res == Sat
+        from .. import norm as norm_
+        for a in anc:
+            pat = subj = None
+            if a.get("k") == "if" and peel(a["cond"]).get("k") == "letexpr" and contains(a["then"], fl):
+                pat, subj = peel(a["cond"])["pat"], peel(a["cond"])["init"]
+            elif a.get("k") == "match":
+                for arm in a["arms"]:
+                    if contains(arm["body"], fl) and "guard" not in arm:
+                        pat, subj = arm["pat"], a["scrut"]
+            if pat is None:
+                continue
+            while pat.get("k") in ("pref", "pderef"):
+                pat = pat["pat"]
+            if not (pat.get("k") == "pvariant" and pat["path"].endswith("Option::Some")):
+                continue
+            tbl = norm_.result_table(ix, subj, unwrap=("Result::Ok",))
+            somes = [(cs, leaf) for cs, leaf in tbl if peel(leaf).get("k") == "ctor" and callee(peel(leaf)).endswith("Option::Some")]
+            if not somes or len(somes) != 1:
+                continue
+            cs, leaf = somes[0]
+            for cnd, pol in cs:
+                rid = is_sat_test(cnd, defs) if isinstance(cnd, dict) and cnd.get("k") != "armpat" else None
+                if rid is not None and pol:
+                    res_id, guard_form, payload = rid, True, peel(leaf)["args"][0]
+            if res_id is not None:
+                break
     if res_id is None:
         return "outside a `res == CheckSatResponse::Sat` branch"
     init = simple_let_init(defs, res_id) or LET_INITS.get(res_id) or LET_INITS.get(canon(res_id))
@@ -282,6 +311,8 @@ def fail_provenance(fl, ix, defs, k_id):
         return "under a Sat test of a query result from a different iteration/branch"
     # the witness
     a = peel(fl["args"][0])
+    if payload is not None:
+        a = peel(payload)      # the value bound by the `Some(..)` pattern is the helper's payload
     w = a
     if a.get("k") == "local":
         wi = simple_let_init(defs, a["id"])
